@@ -377,6 +377,8 @@ func runC08(t *testing.T, sc scenario, ch *sched.Chooser) (res sched.Result) {
 				case "readonly-on", "readonly-off":
 					if in.full != nil {
 						_ = in.full.ChangeReadOnlyState(context.Background(), a.kind == "readonly-on")
+					} else {
+						_ = in.basic.ChangeReadOnlyState(context.Background(), a.kind == "readonly-on")
 					}
 				case "ready":
 					err := in.checkReady(context.Background())
@@ -511,6 +513,8 @@ func scenariosC08() []scenario {
 		{name: "basic-autoforget", seed: nil, lcs: []lcSpec{{id: "a", basic: true, autoForget: 8 * time.Second}, {id: "b", basic: true}}, actions: []action{{at: 2 * time.Second, kind: "stop", who: "b"}}, horizon: 22 * time.Second},
 		// auto-forget looks at heartbeat age only: a member that is JOINING (observing its tokens) with fresh heartbeats stays
 		{name: "autoforget-vs-joining", lcs: []lcSpec{{id: "a", basic: true, autoForget: 8 * time.Second, heartbeat: 2 * time.Second}, {id: "b", joinAfter: 1500 * time.Millisecond, observe: 3 * time.Second, heartbeat: 5250 * time.Millisecond}}, horizon: 9 * time.Second}, // b's heartbeat off the half-second grid: its observe timer (join commit + 3 s) can never fall due together with a tick
+		// several own-entry updates within one second, then a heartbeat: the published heartbeat time never goes back
+		{name: "basic-readonly-burst", lcs: []lcSpec{{id: "a", basic: true, heartbeat: 3 * time.Second}}, actions: []action{{at: 500 * time.Millisecond, kind: "readonly-on", who: "a"}, {at: 500 * time.Millisecond, kind: "readonly-off", who: "a"}, {at: 500 * time.Millisecond, kind: "readonly-on", who: "a"}, {at: 500 * time.Millisecond, kind: "readonly-off", who: "a"}}, horizon: 8 * time.Second},
 		{name: "mixed", lcs: []lcSpec{{id: "a", joinAfter: 1500 * time.Millisecond}, {id: "b", basic: true}}, horizon: 14 * time.Second},
 		{name: "three-joiners", lcs: []lcSpec{{id: "a", joinAfter: 1500 * time.Millisecond}, {id: "b", joinAfter: 1500 * time.Millisecond}, {id: "c", basic: true}}, horizon: 9 * time.Second},
 		{name: "no-heartbeat", lcs: []lcSpec{{id: "a", joinAfter: 1500 * time.Millisecond}, {id: "b", basic: true, noHeartbeat: true}}, actions: []action{{at: 6 * time.Second, kind: "stop", who: "b"}}, horizon: 12 * time.Second},
